@@ -334,6 +334,11 @@ func TestPropOneClientPerNode(t *testing.T) {
 		// initial containers
 		place("g1", "inst", data.NodeTypeGroup)
 		place("v1", "inst", "variable")
+		if rapid.IntRange(0, 3).Draw(t, "seedProbes") > 0 {
+			// start with two clients so that later steps act on a populated manager
+			place("p0", "g1", "probe")
+			place("p1", rapid.SampledFrom([]string{"inst", "g1"}).Draw(t, "p1Parent"), "probe")
+		}
 		flags := map[string]bool{}
 		steps := rapid.IntRange(4, 14).Draw(t, "steps")
 		checkAt := rapid.IntRange(1, steps).Draw(t, "checkpoint")
@@ -373,6 +378,16 @@ func TestPropOneClientPerNode(t *testing.T) {
 				}
 				if len(cands) == 0 {
 					break
+				}
+				// prefer container edges: their deletion removes clients below them
+				var cont []*medge
+				for _, e := range cands {
+					if ty := w.nodes[e.id].typ; ty == data.NodeTypeGroup || ty == "probeHost" {
+						cont = append(cont, e)
+					}
+				}
+				if len(cont) > 0 && rapid.Bool().Draw(t, "preferContainer") {
+					cands = cont
 				}
 				e := cands[rapid.IntRange(0, len(cands)-1).Draw(t, "edge")]
 				before := len(w.expected())
